@@ -244,10 +244,10 @@ func cmdCheck(args []string) int {
 		targets = append(targets, c)
 	}
 	type job struct {
-		fr *FuncResult
-		o  *Obligation
-		kf *KnownFinding
-		canary bool
+		fr        *FuncResult
+		o         *Obligation
+		kf        *KnownFinding
+		canary    bool
 		getValues []string
 	}
 	var jobs []*job
@@ -363,84 +363,108 @@ func cmdCheck(args []string) int {
 	var mu, retryMu sync.Mutex
 	retries := 0
 	solverSecs := map[string]float64{}
-	for idx, j := range all {
-		wg.Add(1)
-		go func(idx int, j *job) {
-			defer wg.Done()
-			sem <- struct{}{}
-			defer func() { <-sem }()
-			extra := ""
-			if j.kf != nil {
-				base := j
-				if j.canary {
-					// find term from the original job
-					for k, t := range excuseTerm {
-						if k.o.Name+"!canary:"+j.kf.ID == j.o.Name && k.fr == j.fr {
-							extra = t
-							_ = base
+	// frame obligations of the form "a callee on this path may modify everything" are solved first: when one fails, the
+	// per-location frame obligations of the same function and scope fail with it (hundreds of 30 s timeouts on a tree
+	// that, e.g., changed the signature of a function with a trusted summary) and are reported as subsumed instead
+	isEverything := func(o *Obligation) bool { return o.Kind == "frame" && strings.HasSuffix(o.Name, "frame:everything") }
+	frameScope := func(j *job) string {
+		return fmt.Sprintf("%p|%s", j.fr, j.o.Name[:strings.LastIndex(j.o.Name, "frame:")+len("frame:")])
+	}
+	everythingFailed := map[string]bool{}
+	for phase := 0; phase < 2; phase++ {
+		for idx, j := range all {
+			if (phase == 0) != isEverything(j.o) {
+				continue
+			}
+			if phase == 1 && j.o.Kind == "frame" && !j.o.Cover && strings.Contains(j.o.Name, "frame:") && everythingFailed[frameScope(j)] {
+				j.o.Result, j.o.Solver = "subsumed", ""
+				continue
+			}
+			wg.Add(1)
+			go func(idx int, j *job) {
+				defer wg.Done()
+				sem <- struct{}{}
+				defer func() { <-sem }()
+				extra := ""
+				if j.kf != nil {
+					base := j
+					if j.canary {
+						// find term from the original job
+						for k, t := range excuseTerm {
+							if k.o.Name+"!canary:"+j.kf.ID == j.o.Name && k.fr == j.fr {
+								extra = t
+								_ = base
+							}
+						}
+					} else {
+						extra = not(excuseTerm[j])
+					}
+				}
+				script := j.o.script(j.fr.Enc, extra, j.getValues)
+				to := timeout
+				if j.o.Cover {
+					to = 10 * time.Second
+				}
+				name := fmt.Sprintf("o%04d_%s", idx, nonWord.ReplaceAllString(j.o.Name, "_"))
+				if len(name) > 120 {
+					name = name[:120]
+				}
+				r := runPortfolio(script, scratch, name, to, seed, *tier == "thorough" && !j.o.Cover)
+				if !j.o.Cover && r.result != "sat" && r.result != "unsat" {
+					// second chance: an undecided (timeout / unknown) proof obligation is retried once, alone, with twice the
+					// time and another seed — a machine loaded by other processes must not turn a 1-second proof into an alarm
+					retryMu.Lock()
+					var r2 solveOut
+					if retries < 8 { // a tree that really breaks many obligations is not worth hours of retries
+						retries++
+						r2 = runPortfolio(script, scratch, name+"_retry", 2*to, seed+3, false)
+					}
+					retryMu.Unlock()
+					if r2.result == "sat" || r2.result == "unsat" {
+						r2.seconds += to.Seconds()
+						for sname, t := range r.perSolver {
+							r2.perSolver[sname+"/first-try"] = t
+						}
+						r = r2
+					}
+				}
+				j.o.Result, j.o.Solver, j.o.Seconds, j.o.Model, j.o.Raw, j.o.Bytes = r.result, r.solver, r.seconds, r.model, r.raw, len(script)
+				mu.Lock()
+				if rj := replays[j.o]; rj != nil && r.result == "sat" && len(j.getValues) > 0 {
+					rj.values = parseGetValue(r.model, len(j.getValues))
+				}
+				for s, t := range r.perSolver {
+					solverSecs[s] += t
+				}
+				if *tier == "thorough" && !j.o.Cover {
+					n := 0
+					for _, res := range r.both {
+						if res == r.result {
+							n++
 						}
 					}
-				} else {
-					extra = not(excuseTerm[j])
-				}
-			}
-			script := j.o.script(j.fr.Enc, extra, j.getValues)
-			to := timeout
-			if j.o.Cover {
-				to = 10 * time.Second
-			}
-			name := fmt.Sprintf("o%04d_%s", idx, nonWord.ReplaceAllString(j.o.Name, "_"))
-			if len(name) > 120 {
-				name = name[:120]
-			}
-			r := runPortfolio(script, scratch, name, to, seed, *tier == "thorough" && !j.o.Cover)
-			if !j.o.Cover && r.result != "sat" && r.result != "unsat" {
-				// second chance: an undecided (timeout / unknown) proof obligation is retried once, alone, with twice the
-				// time and another seed — a machine loaded by other processes must not turn a 1-second proof into an alarm
-				retryMu.Lock()
-				var r2 solveOut
-				if retries < 8 { // a tree that really breaks many obligations is not worth hours of retries
-					retries++
-					r2 = runPortfolio(script, scratch, name+"_retry", 2*to, seed+3, false)
-				}
-				retryMu.Unlock()
-				if r2.result == "sat" || r2.result == "unsat" {
-					r2.seconds += to.Seconds()
-					for sname, t := range r.perSolver {
-						r2.perSolver[sname+"/first-try"] = t
-					}
-					r = r2
-				}
-			}
-			j.o.Result, j.o.Solver, j.o.Seconds, j.o.Model, j.o.Raw, j.o.Bytes = r.result, r.solver, r.seconds, r.model, r.raw, len(script)
-			mu.Lock()
-			if rj := replays[j.o]; rj != nil && r.result == "sat" && len(j.getValues) > 0 {
-				rj.values = parseGetValue(r.model, len(j.getValues))
-			}
-			for s, t := range r.perSolver {
-				solverSecs[s] += t
-			}
-			if *tier == "thorough" && !j.o.Cover {
-				n := 0
-				for _, res := range r.both {
-					if res == r.result {
-						n++
+					if n < 2 {
+						rep.singleSolver = append(rep.singleSolver, j.o.Func+"#"+j.o.Name)
 					}
 				}
-				if n < 2 {
-					rep.singleSolver = append(rep.singleSolver, j.o.Func+"#"+j.o.Name)
+				mu.Unlock()
+				if *verbose {
+					fmt.Fprintf(os.Stderr, "%-8s %-7s %6.2fs %s#%s\n", j.o.Result, j.o.Solver, j.o.Seconds, shortKey(j.o.Func), j.o.Name)
+					if j.o.Result != "sat" && j.o.Result != "unsat" && os.Getenv("VERIF_DEBUG") != "" {
+						fmt.Fprintf(os.Stderr, "    per-solver: %v %v\n    %s\n", r.both, r.perSolver, truncStr(strings.ReplaceAll(j.o.Raw, "\n", " | "), 600))
+					}
+				}
+			}(idx, j)
+		}
+		wg.Wait()
+		if phase == 0 {
+			for _, j := range all {
+				if isEverything(j.o) && j.o.Result != "unsat" {
+					everythingFailed[frameScope(j)] = true
 				}
 			}
-			mu.Unlock()
-			if *verbose {
-				fmt.Fprintf(os.Stderr, "%-8s %-7s %6.2fs %s#%s\n", j.o.Result, j.o.Solver, j.o.Seconds, shortKey(j.o.Func), j.o.Name)
-				if j.o.Result != "sat" && j.o.Result != "unsat" && os.Getenv("VERIF_DEBUG") != "" {
-					fmt.Fprintf(os.Stderr, "    per-solver: %v %v\n    %s\n", r.both, r.perSolver, truncStr(strings.ReplaceAll(j.o.Raw, "\n", " | "), 600))
-				}
-			}
-		}(idx, j)
+		}
 	}
-	wg.Wait()
 	rep.solverSecs = solverSecs
 	rep.loadSecs = loadSecs
 
@@ -467,6 +491,10 @@ func cmdCheck(args []string) int {
 			}
 		default:
 			rep.obligations++
+			if o.Result == "subsumed" {
+				rep.notes = appendUniq(rep.notes, "frame obligations of "+shortKey(o.Func)+" not solved individually: subsumed by the failed `frame:everything` obligation of the same scope")
+				continue
+			}
 			if o.Result == "unsat" {
 				rep.discharged++
 				if j.kf != nil {
